@@ -9,6 +9,15 @@ NOTE = ("Trusted base: clang 14 front end + clang::CFG, tools/xzfacts.cc, sa/*.p
         "of the property is NOT decided (see DESIGN.md section 4).")
 
 CLAIMED = {
+ "C16": dict(
+  text="Finite-domain abstract evaluation of the .lz dictionary-size byte (256 values, exhaustive) and of the auto "
+       "decoder's first-byte dispatch (256 values) against spec tables; .lz magic/versions/lc-lp-pb/footer sizes; effect rule "
+       "for .lz trailing data (mismatch after the first member ends the stream without consuming the byte, FORMAT_ERROR at the "
+       "first member, end only with LZMA_FINISH); .lzma header field widths and byte order, picky-only heuristics, EOPM allowed "
+       "with known size; auto SEQ_FINISH rules; xz's sniffers use liblzma's magic bytes. Stream Padding rule is decided under "
+       "C05. Decoded content is NOT decided.",
+  technique="finite-domain abstract interpretation vs spec tables, effect rules and must-pass rules on the product graph, cross-TU table agreement",
+  ref="4/C16"),
  "C03": dict(
   text="Exhaustive finite-domain abstract evaluation (on the syntax tree/CFG, nothing executed) of the LZMA2 control-byte "
        "decision (256 values x need_properties x need_dictionary_reset = 1024 cases) and of the pure property-byte decoders "
